@@ -113,28 +113,26 @@ def _write_arith(ck: Check, repo: Repo, rb: Cls, add: Fn) -> None:
             ok = pieces[0][0][1] == CAP and pieces[1][0][0] == Poly.const(0)
             ck.ob("C09.1", add, pieces[1][2].ast, ok, "wrap-around: first piece runs to the end of the storage, second starts at 0",
                   detail=f"dest1 = [{pieces[0][0][0].key()}:{pieces[0][0][1].key()}], dest2 = [{pieces[1][0][0].key()}:{pieces[1][0][1].key()}]")
-    # branch condition
+    # branch condition: each test that decides between the two branches must send the wrap-around stores to the outcome that means
+    # cursor + n > capacity and the contiguous stores to the other outcome (which outcome is the `if` and which the `else` / the code after an
+    # early return, and whether the test is written as `<`, `<=` or negated, does not matter: over the integers every outcome is `D > 0`)
+    wrap = [s for g, ss in by_branch.items() if len(ss) == 2 for s in ss]
+    plain = [s for s in stores if s not in wrap]
     tests = [n for n in cfg.live_nodes() if n.kind == "test" and any(n.id == t.id for s in stores for _, _, t in cfg.guards_at(s))
              and "_storage is None" not in ast.unparse(n.ast)]
     for t in tests:
         c = t.ast
         ok = False
         detail = ast.unparse(c)
-        if isinstance(c, ast.Compare) and len(c.ops) == 1 and cursor_attr:
-            l, r = tb.term(c.left, t), tb.term(c.comparators[0], t)
+        if cursor_attr:
             N = _batch_width(tb, t)
             cur = Poly.atom(f"attr:{cursor_attr}")
-            if isinstance(c.ops[0], ast.Gt):
-                ok = (l - r) == (cur + N - CAP)
-            elif isinstance(c.ops[0], ast.Lt):
-                ok = (r - l) == (cur + N - CAP)
-            elif isinstance(c.ops[0], ast.GtE):
-                ok = (l - r) == (cur + N - CAP - Poly.const(1)) or False
-            # wrap pieces must be in the true region
-            wrap = [s for g, ss in by_branch.items() if len(ss) == 2 for s in ss]
-            reg = cfg._region([t.true_succ], t) if t.true_succ else set()
-            ok = ok and all(s.id in reg for s in wrap)
-            detail = f"{l.key()} {type(c.ops[0]).__name__} {r.key()}"
+            taken = [_outcome_at(cfg, tb, s, t) for s in wrap]
+            other = [_outcome_at(cfg, tb, s, t) for s in plain]
+            ok = bool(wrap) and bool(plain) and all(d is not None and d == (cur + N - CAP) for d in taken) \
+                and all(d is not None and d == (CAP - cur - N + Poly.const(1)) for d in other)
+            detail = " ; ".join(f"{what} when {d.key() + ' > 0' if d is not None else '(not decided by this test)'}"
+                                for what, d in (("wrap-around", (taken + [None])[0]), ("contiguous write", (other + [None])[0])))
         ck.ob("C09.1", add, c, ok, "the wrap-around branch is taken iff cursor + n > capacity", detail=detail)
     # ---- C09.2
     size_attr = None
@@ -168,6 +166,30 @@ def _write_arith(ck: Check, repo: Repo, rb: Cls, add: Fn) -> None:
 
 def _batch_width(tb: TermBuilder, n: Node) -> Poly:
     return tb.term(ast.parse("data.shape[0]", mode="eval").body, n)
+
+
+def _outcome_at(cfg: CFG, tb: TermBuilder, s: Node, t: Node) -> Optional[Poly]:
+    """The integer term D such that s is executed only after test t came out as `D > 0` (None: t does not decide s, or t is not a single
+    order comparison).  `l < r` is r - l > 0, `l <= r` is r - l + 1 > 0, and the other outcome of `D > 0` is 1 - D > 0."""
+    for c, pol, tn in cfg.guards_at(s):
+        if tn.id != t.id:
+            continue
+        if not (isinstance(c, ast.Compare) and len(c.ops) == 1):
+            return None
+        l, r = tb.term(c.left, t), tb.term(c.comparators[0], t)
+        op = c.ops[0]
+        if isinstance(op, ast.Lt):
+            d = r - l
+        elif isinstance(op, ast.LtE):
+            d = r - l + Poly.const(1)
+        elif isinstance(op, ast.Gt):
+            d = l - r
+        elif isinstance(op, ast.GtE):
+            d = l - r + Poly.const(1)
+        else:
+            return None
+        return d if pol else Poly.const(1) - d
+    return None
 
 
 # ------------------------------------------------------------------------------------------------
@@ -533,4 +555,41 @@ VARIANTS = [
 VARIANTS += [
     # the dict that is filled is recognised as the one the function returns, not by its name
     ("ma-transition-stored-swapped", _MAF, "transition[field][agent_id] = ts", "transition[agent_id][field] = ts", "fire", "C09.5"),
+]
+
+_WRITE_OLD = ("        if end > self.max_size:\n            n = self.max_size - start\n            self._storage[start:] = data[:n]\n"
+              "            self._storage[: _n_transitions - n] = data[n:]\n        else:\n            self._storage[start:end] = data\n")
+
+
+def _write_swapped(test: str) -> str:
+    """the write block with the contiguous case first, under `test`"""
+    return (f"        if {test}:\n            self._storage[start:end] = data\n        else:\n            n = self.max_size - start\n"
+            "            self._storage[start:] = data[:n]\n            self._storage[: _n_transitions - n] = data[n:]\n")
+
+
+_ADD_TAIL = ("\n        # Update cursor and size\n        self._cursor = end % self.max_size\n"
+             "        self._size = min(self._size + _n_transitions, self.max_size)\n        self.counter += _n_transitions\n")
+
+
+def _write_helper(test: str, helper: str) -> str:
+    """the write block extracted into a private method `helper` that returns early for the contiguous case, under `test` (the method's name
+    is spelled only inside VARIANTS: a name that occurs in a rule is an anchor and is never inlined by the front end)"""
+    return (f"        end = self.{helper}(data, _n_transitions)\n" + _ADD_TAIL +
+            f"\n    def {helper}(self, data: TensorDict, n_transitions: int) -> int:\n        start = self._cursor\n        end = start + n_transitions\n"
+            f"        if {test}:\n            self._storage[start:end] = data\n            return end\n\n"
+            "        head = self.max_size - start\n        self._storage[start:] = data[:head]\n"
+            "        self._storage[: end - self.max_size] = data[head:]\n        return end\n")
+
+
+_WRITE_BLOCK = "        start = self._cursor\n        end = self._cursor + _n_transitions\n" + _WRITE_OLD + _ADD_TAIL
+VARIANTS += [
+    # the test that separates the two branches is judged by the outcome each store sits under, not by its spelling
+    ("wrap-contiguous-case-first-ok", _RBF, _WRITE_OLD, _write_swapped("end <= self.max_size"), "silent", None),
+    ("wrap-contiguous-case-first-negated-ok", _RBF, _WRITE_OLD, _write_swapped("not end > self.max_size"), "silent", None),
+    ("wrap-cond-difference-ok", _RBF, "        if end > self.max_size:", "        if end - self.max_size >= 1:", "silent", None),
+    ("wrap-helper-early-return-ok", _RBF, _WRITE_BLOCK, _write_helper("end <= self.max_size", "_write"), "silent", None),
+    ("wrap-contiguous-case-first-off-by-one", _RBF, _WRITE_OLD, _write_swapped("end <= self.max_size + 1"), "fire", "C09.1"),
+    ("wrap-contiguous-case-first-bodies-not-swapped", _RBF, "        if end > self.max_size:", "        if end <= self.max_size:", "fire", "C09.1"),
+    ("wrap-helper-early-return-off-by-one", _RBF, _WRITE_BLOCK, _write_helper("end < self.max_size - 1", "_write"), "fire", "C09.1"),
+    ("wrap-contiguous-write-unguarded", _RBF, "        else:\n            self._storage[start:end] = data\n", "        self._storage[start:end] = data\n", "fire", "C09.1"),
 ]
